@@ -18,8 +18,8 @@ import gen_skeleton as gs
 import vloop
 
 # resource ids
-CONN, SESSION, PM, TAKEOVER, AUDIOFILE, SERVER, HTTPCONN, TRANSPORT = range(8)
-RES_NAMES = {CONN: "protocol connection(s)", SESSION: "http session manager", PM: "playback manager (_is_acquired)",
+CONN, SESSION, PM, TAKEOVER, AUDIOFILE, SERVER, HTTPCONN, TRANSPORT, UNREG = range(9)
+RES_NAMES = {UNREG: "established protocol connection not yet known to close()", CONN: "protocol connection(s)", SESSION: "http session manager", PM: "playback manager (_is_acquired)",
              TAKEOVER: "interface takeover", AUDIOFILE: "audio file", SERVER: "local web server",
              HTTPCONN: "http connection", TRANSPORT: "audio datagram transport"}
 
@@ -37,10 +37,14 @@ def specs():
                 (r"^http\.create_session\(", [("acquire", SESSION, True)]),
                 (r"^setup_data\.connect\(\)$", [("acquire", CONN, True)]),
                 (r"^atv\.close\(\)$", [("release", CONN, False), ("release", SESSION, False)]),
+                # close() only closes the protocols recorded in _protocol_handlers: between a successful
+                # connect() of a protocol and this assignment nothing may fail
+                (r"^self\._protocol_handlers\[setup_data\.protocol\] = setup_data$", [("release", UNREG, False)]),
             ],
+            "true_branch_effects": [(r"^await setup_data\.connect\(\)$", [("acquire", UNREG, False)])],
             "nofail": [r"^FacadeAppleTV\(", r"^PROTOCOLS\.items\(\)", r"^config_copy\.get_service\(", r"^self\._protocols_to_setup\.",
-                       r"^MemoryStorage\(", r"^interface\.DeviceInfo\(", r"^dict_merge\(", r"^setup_data\.device_info\(",
-                       r"^setup_data\.interfaces\.items\(", r"\.register\(", r"^self\._features\.add_mapping\(",
+                       r"^MemoryStorage\(", r"^interface\.DeviceInfo\(", r"^dict_merge\(",
+                       r"\.register\(", r"^self\._features\.add_mapping\(",
                        r"^exceptions\.\w+\(", r"^config_copy\.apply\(", r"^atv\.add_protocol\("],
         }, "exn-balanced"),
         "stream_file": (RaopStream.stream_file, {
@@ -123,6 +127,15 @@ class Tr(gs.Translator):
 
     def stmt(self, s):
         import ast
+        import re
+        if isinstance(s, ast.If):
+            text = gs.src(s.test)
+            for rx, effs in self.spec.get("true_branch_effects", []):
+                if re.search(rx, text):
+                    self.matched = getattr(self, "matched", set()) | {rx}
+                    pre = self.calls_in(s.test)
+                    a = self.seq(self.eff_list(effs, s.test, False) + [self.block(s.body)])
+                    return self.seq(pre + [("Choice", a, self.block(s.orelse))])
         if isinstance(s, (ast.Assign, ast.AnnAssign)) and s.value is not None:
             text = gs.src(s)
             if isinstance(s, ast.AnnAssign):
@@ -142,6 +155,9 @@ def translate_all():
     for name, (fn, spec, pred) in specs().items():
         tr = Tr(spec)
         cmd = tr.function(fn)
+        for rx, _ in spec.get("true_branch_effects", []):
+            if rx not in getattr(tr, "matched", set()):
+                raise gs.Unsupported("%s: no `if` with condition %s found (the effect table no longer describes the code)" % (name, rx))
         out[name] = (cmd, tr.labels, pred, spec)
     return out
 
